@@ -14,16 +14,25 @@ NT = len(G.TEMPLATES)
 VARSETS = (None, {"s": True, "i": True}, {"s": False, "i": False}, {"s": True, "i": False}, {"x": 0, "r": "ADMIN"}, {"x": None}, {"f": {"a": 1, "c": None}, "ids": None}, {"n": 3})
 
 
+REQUEST_ERROR = "<request error: no execution>"
+
+
 def real_run(schema, text, variables, data, opname):
     res = graphql_blocking(schema, text, variables=variables, root=data, operation_name=opname)
     errs = sorted(((tuple(e.path) if getattr(e, "path", None) is not None else None, (e.nodes[0].loc[0] if getattr(e, "nodes", None) else None))
                    for e in res.errors), key=repr)
-    return res.response().get("data", "<no data>"), errs, [str(e) for e in res.errors]
+    got = res.response().get("data", "<no data>")
+    if got in (None, "<no data>") and errs and all(p is None for p, _ in errs):
+        return REQUEST_ERROR, [], [str(e) for e in res.errors]       # rejected before execution: errors without a path, no data
+    return got, errs, [str(e) for e in res.errors]
 
 
 def ref_run(text, variables, data, opname, fail):
     doc = parse(text)
-    return RX.run(G.MODEL, doc, variables, RX.World(fail=fail, fns=G.FNS), opname, data)
+    try:
+        return RX.run(G.MODEL, doc, variables, RX.World(fail=fail, fns=G.FNS), opname, data)
+    except RX.RequestError:
+        return REQUEST_ERROR, []
 
 
 def _exec_template(t: int, nul: int, fail: int, vs: int, hist: int) -> bool:
